@@ -182,6 +182,13 @@ impl Optimizer {
                 // A proper implementation would use plan hashing
                 if format!("{:?}", new_plan) != format!("{:?}", current) {
                     changed = true;
+                    #[cfg(qe_verif)]
+                    {
+                        crate::verif_hooks::path(&format!("rule.{}", rule.name()));
+                        crate::verif_hooks::event("rule", || {
+                            format!("{}|{}|{}|{}", iter, rule.name(), current, new_plan)
+                        });
+                    }
                     if diag {
                         eprintln!("[OPT iter={} rule={}] Plan changed", iter, rule.name());
                         Self::print_plan_summary(&new_plan, 0);
@@ -202,6 +209,13 @@ impl Optimizer {
                     rule.name()
                 ))
             })?;
+            #[cfg(qe_verif)]
+            if format!("{:?}", new_plan) != format!("{:?}", current) {
+                crate::verif_hooks::path(&format!("rule.{}", rule.name()));
+                crate::verif_hooks::event("rule", || {
+                    format!("final|{}|{}|{}", rule.name(), current, new_plan)
+                });
+            }
             if diag && format!("{:?}", new_plan) != format!("{:?}", current) {
                 eprintln!("[OPT final rule={}] Plan changed", rule.name());
                 Self::print_plan_summary(&new_plan, 0);
